@@ -1049,12 +1049,30 @@ def walkBlockOf (body : Run) : Run := fun ctx st =>
     | some ctx2 => ⟨.ok, ctx2, r.st⟩
   | _ => r
 
+/-- `s.node = prev` at the end of renderBlock: only when the block ended normally (a panic inside leaves the
+    state at the failing node) -/
+def restoreNode (c : Cls) (prev : Nat) (s : St) : St := if c = .ok then atNode s prev else s
+
+@[simp] theorem restoreNode_heap (c : Cls) (p : Nat) (s : St) : (restoreNode c p s).heap = s.heap := by
+  unfold restoreNode; split <;> rfl
+@[simp] theorem restoreNode_out (c : Cls) (p : Nat) (s : St) : (restoreNode c p s).out = s.out := by
+  unfold restoreNode; split <;> rfl
+@[simp] theorem restoreNode_next (c : Cls) (p : Nat) (s : St) : (restoreNode c p s).next = s.next := by
+  unfold restoreNode; split <;> rfl
+@[simp] theorem restoreNode_foreign (c : Cls) (p : Nat) (s : St) : (restoreNode c p s).foreign = s.foreign := by
+  unfold restoreNode; split <;> rfl
+@[simp] theorem restoreNode_impossible (c : Cls) (p : Nat) (s : St) : (restoreNode c p s).impossible = s.impossible := by
+  unfold restoreNode; split <;> rfl
+@[simp] theorem restoreNode_ok (p : Nat) (s : St) : restoreNode .ok p s = atNode s p := by simp [restoreNode]
+
 /-- renderBlock: walkBlock with the writer swapped for a buffer; the buffer's bytes are returned and
-    nothing reaches the main output.  On an error the writer is NOT restored in Go (the state is
-    abandoned); what the caller's writer received is what it had before. -/
+    nothing reaches the main output.  `s.node` is saved before and restored after the block (the command
+    that owns the block is still the one being executed: an error after the block is reported there).  On an
+    error the writer and the node are NOT restored in Go (the state is abandoned); what the caller's writer
+    received is what it had before. -/
 def renderBlockOf (body : Run) (ctx : Scope) (st : St) : R × Bytes :=
   let r := walkBlockOf body ctx { st with out := [] }
-  (⟨r.cls, r.ctx, { r.st with out := st.out }⟩, bufBytes r.st.out)
+  (⟨r.cls, r.ctx, restoreNode r.cls st.node { r.st with out := st.out }⟩, bufBytes r.st.out)
 
 /-- evalCall: the scope the callee's params are bound in — data="all": the caller's frames up to the
     entered one plus a fresh frame; data="$e": that map plus a fresh frame; neither: a fresh map. -/
